@@ -84,7 +84,7 @@ def get_result(c, fut, who):
 
 
 def graceful_shutdown(c, ex):
-    """shutdown(wait=True); _join() re-raises a job's own exception (TimeoutExpired, spawn failure): tolerated, recorded"""
+    """shutdown(wait=True): must wait for every job and must not fail with one job's own exception (recorded; see invariants)"""
     try:
         ex.shutdown(wait=True)
     except BaseException as e:  # noqa
@@ -144,6 +144,19 @@ def h_timeout(c):
     ex.submit(f1)
     get_result(c, f1, "w1")
     graceful_shutdown(c, ex)
+
+
+def h_wait_timeout(c):
+    """two jobs, the first with a time limit; a graceful shutdown must wait for both, whatever happens to the first"""
+    P = c.P
+    ex = P.PopenExecutor()
+    f1, f2 = P.PopenFuture(["solver", "q1"], timeout=5), P.PopenFuture(["solver", "q2"])
+    c.futs = [f1, f2]
+    ex.submit(f1)
+    ex.submit(f2)
+    graceful_shutdown(c, ex)
+    get_result(c, f1, "w1")
+    get_result(c, f2, "w2")
 
 
 def h_after(c):
@@ -275,6 +288,7 @@ HARNESSES = {
     "race-wait": ([UNSAT], False, lambda c: h_race(c, wait=True)),
     "wait2": ([UNSAT, ("sat\n", "", 0)], False, h_wait),
     "timeout": ([UNSAT], False, h_timeout),
+    "wait-timeout": ([UNSAT, UNSAT], False, h_wait_timeout),
     "after": ([UNSAT, UNSAT], False, h_after),
     "double": ([UNSAT], False, h_double),
     "double-registry": ([UNSAT], False, h_double_registry),
@@ -336,6 +350,9 @@ def invariants(hname, sch, exc):
                     bad.append(("waiting-after-shutdown", f"process {p.pid} (spawned at step {p.spawn_step}) is waited on at step {b} while running, after {label} at step {step}"))
                 elif end > step:
                     bad.append(("alive-after-shutdown", f"process {p.pid} is still running and waited on when {label} (spawned at step {p.spawn_step}, exit at {p.exit_step}, shutdown returned at {step})"))
+    for who, kind, val in c.obs:
+        if who == "shutdown" and kind == "raised":
+            bad.append(("shutdown-raised", f"shutdown(wait=True) failed with a job's own exception ({val}) instead of waiting for the remaining jobs"))
     for p in c.env.procs:
         if p.state == "running":
             bad.append(("alive-at-end", f"process {p.pid} is still running when every thread has finished"))
@@ -465,8 +482,8 @@ def conformance(acc):
         if shutdown_wait is True:
             try:
                 ex.shutdown(wait=True)
-            except (subprocess.TimeoutExpired, OSError):
-                pass  # _join() re-raises the job's own exception: tolerated (see graceful_shutdown)
+            except (subprocess.TimeoutExpired, OSError) as e:
+                acc.violation(f"conformance:shutdown-raised:{' '.join(cmd)}", f"real executor: shutdown(wait=True) failed with the job's own exception {e!r}", {"conformance": True})
         alive = f.is_running()
         acc.count("conformance_runs")
         alts = expect if isinstance(expect[0], tuple) else (expect,)
